@@ -364,3 +364,45 @@ where
     | succ k ih => simp [beBytes, ih]
 
 end Abverif.Ws
+
+namespace Abverif.Ws
+
+/-! ### once closing has begun a drop timer is armed -/
+
+theorem step_cbInv (s : S) (op : Op) (h : CBInv s) : CBInv (step s op) := by
+  unfold step
+  refine (pump_Ext _).cb ?_
+  by_cases hop : op = .lost
+  · subst hop
+    simp only [stepCore]
+    intro hc
+    by_cases hl : s.lost = true
+    · rw [connectionLost_idem s hl] at hc ⊢; exact h hc
+    · have := (connectionLost_closed s (by simpa using hl)).1
+      rw [this] at hc; cases hc
+  · exact (stepCore_Ext s op hop).cb h
+
+theorem start_cbInv (cfg : Cfg) : CBInv (start cfg) := by
+  unfold start CBInv
+  dsimp only
+  split <;> simp [armPingNext, S.timer]
+
+/-- **closing_has_timer** (the invariant behind "closing is bounded"): in every reachable state, for every
+configuration and history, a connection in CLOSING has the closing-handshake timer armed, or is a client with the
+server-connection-drop timer armed — unless the respective timeout is configured to 0 (disabled).  Together with
+`close_timeout_drops` / `server_drop_timeout_drops` (C17) — an armed timer whose deadline has passed means CLOSED — and
+`batched_le` (the deadline is never later than now + timeout), CLOSING cannot outlive the configured timeouts. -/
+theorem closing_has_timer (cfg : Cfg) (ops : List Op) : CBInv (run (start cfg) ops) := by
+  suffices ∀ (s : S), CBInv s → CBInv (run s ops) from this _ (start_cbInv cfg)
+  induction ops with
+  | nil => intro s h; exact h
+  | cons op ops ih =>
+    intro s h
+    simp only [run, List.foldl_cons]
+    exact ih _ (step_cbInv s op h)
+
+/-- non-vacuity: a client that answered the server's close frame is CLOSING with the server-drop timer armed -/
+example : (run (start { isServer := false }) [.feed [0x88, 0x00]]).st = .closing ∧
+    (run (start { isServer := false }) [.feed [0x88, 0x00]]).tServerDrop.isSome = true := by decide
+
+end Abverif.Ws
